@@ -158,7 +158,11 @@ Eval(e, cx, k) ==
                         IF l[1] # "V" THEN l
                         ELSE LET r == Eval(e.r, cx, l[3]) IN
                              IF r[1] # "V" THEN r ELSE Res(BinOp(e.o, l[2], r[2]), r[3])
-      [] e.k = "fn" -> IF e.n \in {"lbound", "ubound"} THEN
+      [] e.k = "fn" -> IF e.n = "err" THEN
+                            \* ERR identifies the kind of the last error: the code of the error class the
+                            \* cause demands (numbering taken from the tree, like the opcodes)
+                            (IF cx.err = "" THEN E(OOM, k) ELSE V(IntV(cx.p.errcodes[cx.err]), k))
+                       ELSE IF e.n \in {"lbound", "ubound"} THEN
                             LET pre == BasePrefix(cx, e.arr)
                                 bs == BoundsOf(cx, pre, e.rank)
                                 d == IF e.args = <<>> THEN V(LngV(1), k) ELSE Eval(e.args[1], cx, k)
